@@ -252,6 +252,9 @@ func driveC16(c *h.Ctx) error {
 		"(before/after each request and each read of a pipelined exchange, mid-handler with handlers honouring or ignoring cancellation, released before or after the 3 s grace period, " +
 		"mid-response with a peer that does not read, during a slow connect hook, failing hook, TLS ok/failed, idle server, failing Accept, " +
 		"connection parked between Accept and wg.Add (hook), many concurrent random connections); non-trivial = a connection exists; distinct by scenario JSON")
+	if c.Replay == nil || func() bool { m, _ := c.Replay["case"].(map[string]any); return m != nil && m["leg"] == "after-grace" }() {
+		c16AfterGrace(c)
+	}
 	var scs []srvScenario
 	if c.Replay != nil {
 		sc, ok := srvReplayScenario(c)
